@@ -74,7 +74,8 @@ type input struct {
 	Asc    bool     `json:"asc"`
 	Num    uint64   `json:"num"`
 	Hosts  []hostIn `json:"hosts"`
-	NRand  int      `json:"n_rand"` // > 5 hosts: number of PRNG orders
+	Res    string   `json:"res,omitempty"` // time resolution ("" = default 5m, "10m", "1h"); effective for time queries
+	NRand  int      `json:"n_rand"`        // > 5 hosts: number of PRNG orders
 	OSeed  uint64   `json:"oseed"`
 }
 
@@ -190,6 +191,15 @@ func genKeyPool(r *vhlib.Rand, tieProne bool, timeQ bool) []keyIn {
 				k.Zone = (k.Zone + 1 + r.Intn(len(locs)-1)) % len(locs)
 			} else {
 				k.HID = k.HID + "x"
+			}
+			pool = append(pool, k)
+			continue
+		}
+		if timeQ && len(pool) > 0 && r.Chance(50) { // another 5-minute timestamp of the same flow (same or next bin)
+			k := vhlib.Pick(r, pool)
+			k.Inst += 300 * int64(1+r.Intn(2))
+			if !tieProne {
+				k.Zone = int(k.Inst/300) % len(locs)
 			}
 			pool = append(pool, k)
 			continue
@@ -352,6 +362,16 @@ func hand(i int) *input {
 			{Host: "h1", Statuses: st("h1", "ok"), First: 150, Last: 180, Rows: []rowIn{{K: k1, C: [4]uint64{1, 2, 3, 4}}, {K: k2, C: [4]uint64{4, 3, 2, 1}}}, Hits: 2},
 			{Host: "h2", Err: "timeout"},
 			{Host: "h3", Statuses: st("h3", "ok"), First: 90, Last: 190, Rows: []rowIn{{K: k2, C: [4]uint64{1, 1, 1, 1}}}, Hits: 1}}
+	case 8, 9: // time resolution 10m / 1h: 5-minute rows of two hosts fold into one bin (BinTime rewrites Hits.Total)
+		ka, kb, kc := k1, k1, k1
+		ka.Inst, kb.Inst, kc.Inst = 1700000100, 1700000400, 1700000700
+		ka.Zone, kb.Zone, kc.Zone = 0, 2, 4
+		base.Query, base.Res = "time,sip,dip,dport,proto", []string{"10m", "1h"}[i-8]
+		base.Hosts = []hostIn{
+			{Host: "h0", Statuses: st("h0", "ok"), First: 1699999000, Last: 1700000700, Rows: []rowIn{{K: ka, C: [4]uint64{1, 0, 1, 0}}, {K: kb, C: [4]uint64{2, 0, 1, 0}}}, Hits: 2},
+			{Host: "h1", Statuses: st("h1", "empty"), First: 1699999000, Last: 1700000700},
+			{Host: "h2", Statuses: st("h2", "ok"), First: 1699999000, Last: 1700000700, Rows: []rowIn{{K: kb, C: [4]uint64{4, 0, 1, 0}}, {K: kc, C: [4]uint64{8, 0, 1, 0}}}, Hits: 2},
+			{Host: "h3", Err: "timeout"}}
 	default:
 		return nil
 	}
@@ -375,6 +395,7 @@ func gen(r *vhlib.Rand, i int, o vhlib.Opts) any {
 	in.Query = "sip,dip,dport,proto"
 	if timeQ {
 		in.Query = "time,sip,dip,dport,proto"
+		in.Res = vhlib.Pick(r, []string{"", "10m", "10m", "1h"})
 	}
 	in.Num = vhlib.Pick(r, []uint64{1, 2, 3, 5, 1000, 1000})
 	tieProne := r.Chance(30)
@@ -473,7 +494,7 @@ func mkArgs(in *input) *query.Args {
 	}
 	return &query.Args{Query: in.Query, Ifaces: "eth0", Format: "json", MaxMemPct: 60, NumResults: in.Num,
 		First: "2023-11-14T00:00:00Z", Last: "2023-11-15T12:00:00Z", SortBy: in.SortBy, SortAscending: in.Asc,
-		In: in.In, Out: in.Out, Sum: in.Sum, QueryHosts: strings.Join(names, ",")}
+		In: in.In, Out: in.Out, Sum: in.Sum, QueryHosts: strings.Join(names, ","), TimeResolution: in.Res}
 }
 
 // ---------------------------------------------------------------- projection
@@ -585,7 +606,7 @@ type observed struct {
 	NDistinct int       `json:"n_distinct"`
 	Variants  []variant `json:"variants"`
 	Tied      bool      `json:"tied"`
-	Stmt      [4]int64  `json:"stmt"`
+	Stmt      [5]int64  `json:"stmt"`
 }
 
 func runOrder(in *input, order []int, tied bool) (variant, error) {
@@ -792,7 +813,11 @@ func run(raw json.RawMessage, o vhlib.Opts) (*vhlib.Case, error) {
 	if stmt.NumResults > 1<<40 {
 		num = 1 << 40
 	}
-	ob.Stmt = [4]int64{int64(stmt.SortBy), int64(stmt.Direction), 0, num}
+	bin := int64(0) // Statement.PostProcess runs BinTime only under this condition
+	if stmt.LabelSelector.Timestamp && stmt.TimeBinSize != types.DefaultTimeResolution {
+		bin = int64(stmt.TimeBinSize.Seconds())
+	}
+	ob.Stmt = [5]int64{int64(stmt.SortBy), int64(stmt.Direction), 0, num, bin}
 	if stmt.SortAscending {
 		ob.Stmt[2] = 1
 	}
@@ -864,7 +889,7 @@ func run(raw json.RawMessage, o vhlib.Opts) (*vhlib.Case, error) {
 	if stmt.SortAscending {
 		asc = "true"
 	}
-	c.Coq = fmt.Sprintf("(Case (Stmt %d %d %s %d) %s [%s] %d [%s])", ob.Stmt[0], ob.Stmt[1], asc, num, vhlib.CoqBool(ob.Tied),
+	c.Coq = fmt.Sprintf("(Case (Stmt %d %d %s %d %d) %s [%s] %d [%s])", ob.Stmt[0], ob.Stmt[1], asc, num, bin, vhlib.CoqBool(ob.Tied),
 		strings.Join(hs, ";"), len(ords), strings.Join(vs, ";"))
 
 	tag := func(b bool, s string) {
@@ -888,6 +913,7 @@ func run(raw json.RawMessage, o vhlib.Opts) (*vhlib.Case, error) {
 	tag(ob.Tied, "unordered-keys")
 	tag(uint64(len(keys)) > stmt.NumResults, "limit-cuts")
 	tag(strings.HasPrefix(in.Query, "time"), "time-query")
+	tag(bin > 0, "time-binning:"+in.Res)
 	tag(ob.Class != "ok", "class:"+ob.Class)
 	tag(ob.NDistinct > 1, "order-dependent")
 	c.Tags = append(c.Tags, "sort:"+stmt.SortBy.String()+"/"+stmt.Direction.String())
